@@ -275,7 +275,8 @@ type chunkIterator[T any] struct {
 }
 
 func (iter *chunkIterator[T]) Next() ([]T, bool) {
-	chunk := make([]T, 0, iter.chunkSize)
+	// Not pre-sized to chunkSize: it may be far larger than what inner has left.
+	var chunk []T
 	for {
 		item, ok := iter.inner.Next()
 		if !ok {
